@@ -627,7 +627,7 @@ theorem execCore_good : ∀ (o : Op) (m : M), Good m (execCore o m)
     exact tmpFinish_good (m2 := pushVals n m) rfl rfl rfl (exec_good body (pushVals n m))
   | .handler id body, m => by
     simp only [execCore]
-    exact handlerFinish_good (id := id) (m2 := { m with vs := Slot.handler id :: m.vs }) rfl rfl rfl (exec_good body _)
+    exact handlerFinish_good (id := id + 1) (m2 := { m with vs := Slot.handler (id + 1) :: m.vs, efunCtx := (id + 1) :: m.efunCtx }) rfl rfl rfl (exec_good body _)
   | .setReg r v, m => by
     simp only [execCore]
     cases r <;> exact ⟨rfl, rfl, rfl⟩
